@@ -200,14 +200,20 @@ def run(ctx):
     problems = [o for o in obs if o["problem"]]
     if len(problems) > 5 and not tr.cases("BAD "):
         raise vf.Inconclusive("%d runs could not be completed, e.g. %s" % (len(problems), problems[0]["problem"]))
+    drift_notes = {}
     for b in tr.cases("BAD "):
         o = obs[b["line"] - 1]
         for clause in b["fails"]:
             name = clause.split(":", 1)[1]
+            if clause.startswith("NOTE:"):
+                drift_notes[name] = drift_notes.get(name, 0) + 1
+                continue
             ins = [s["e"]["type"] for s in o["steps"] if s["a"] == "in"]
             shape = "+".join(sorted(set(ins))) if ins else "-"
             ctx.violation("C09/%s/%s/%s/%s" % (o["kind"], o["mode"], name, shape),
                           "%s run %d: clause '%s' false on what the real code did" % (o["mode"], o["n"], name), o)
+    if drift_notes:
+        ctx.cov["notes"].append({"model_drift_not_judged": drift_notes})
     for o in obs:
         outs_n = len([s for s in o["steps"] if s["a"] == "out"])
         ins_n = len([s for s in o["steps"] if s["a"] == "in"])
